@@ -864,7 +864,9 @@ static void wlSync(Ctx& c, int nexec, int len)
          int mode = c.objs[o]->intParam(SoPlex::SYNCMODE);
          int k = c.rng.R(0, 99);
          if(k < 40) { int tries = 0; while(!randomModReal(c, o, gen, maxDim) && ++tries < 50) {} }
-         else if(k < 85) { if(mode == SoPlex::SYNCMODE_ONLYREAL) continue; int tries = 0; while(!randomModRat(c, o, genq, maxDim) && ++tries < 50) {} }
+         else if(k < 80) { if(mode == SoPlex::SYNCMODE_ONLYREAL) continue; int tries = 0; while(!randomModRat(c, o, genq, maxDim) && ++tries < 50) {} }
+         else if(k < 85) { SoPlex& s = *c.objs[o]; if(s.numRows() == 0 || s.numCols() == 0) continue;        // a floating-point solve in between: with persistent scaling the stored real LP is scaled afterwards
+                           SolveOpts so; so.complete = false; optimize(c, o, so); }
          else if(k < 91) syncCall(c, o, c.rng.coin());
          else if(k < 94) setInt(c, o, "OBJSENSE", SoPlex::OBJSENSE, c.rng.coin() ? -1 : 1);
          else if(k < 96) setReal(c, o, "OBJ_OFFSET", SoPlex::OBJ_OFFSET, (double)c.rng.R(-3, 3));
